@@ -2,10 +2,14 @@ package props
 
 import (
 	"fmt"
+	"net/url"
 	"sort"
+	"strings"
 	"sync"
+	"sync/atomic"
 
 	"github.com/AdguardTeam/urlfilter"
+	"github.com/AdguardTeam/urlfilter/filterlist"
 	"github.com/AdguardTeam/urlfilter/rules"
 
 	"verif/enum"
@@ -80,6 +84,97 @@ func c15Reference(rs []*rules.CosmeticRule, host string, css, generic bool) (gen
 	return gen, spec
 }
 
+// c15Written is an element-hiding rule as written: the domain list in front of
+// the marker, read without the library.
+type c15Written struct {
+	exception  bool
+	selector   string
+	permitted  []string
+	restricted []string
+}
+
+func c15ParseWritten(line string) c15Written {
+	var w c15Written
+	i := strings.Index(line, "#@#")
+	n := 3
+	if i < 0 {
+		i, n = strings.Index(line, "##"), 2
+	} else {
+		w.exception = true
+	}
+	if i < 0 {
+		panic(HarnessError("no element-hiding marker in " + line))
+	}
+	w.selector = line[i+n:]
+	if i > 0 {
+		for _, d := range strings.Split(line[:i], ",") {
+			if strings.HasPrefix(d, "~") {
+				w.restricted = append(w.restricted, d[1:])
+			} else {
+				w.permitted = append(w.permitted, d)
+			}
+		}
+	}
+	return w
+}
+
+func (w c15Written) applies(host string) bool {
+	for _, d := range w.restricted {
+		if refDomainOrSub(host, d) {
+			return false
+		}
+	}
+	if len(w.permitted) == 0 {
+		return true
+	}
+	for _, d := range w.permitted {
+		if refDomainOrSub(host, d) {
+			return true
+		}
+	}
+	return false
+}
+
+// c15WrittenReference is c15Reference over the rules as written: it does not
+// depend on how the library represents a parsed rule.
+func c15WrittenReference(lines []string, host string, css, generic bool) (gen, spec []string) {
+	if !css {
+		return nil, nil
+	}
+	var ws []c15Written
+	for _, l := range lines {
+		ws = append(ws, c15ParseWritten(l))
+	}
+	g, s := map[string]bool{}, map[string]bool{}
+next:
+	for _, r := range ws {
+		if r.exception || !r.applies(host) {
+			continue
+		}
+		for _, e := range ws {
+			if e.exception && e.selector == r.selector && e.applies(host) {
+				continue next
+			}
+		}
+		if len(r.permitted) == 0 {
+			if generic {
+				g[r.selector] = true
+			}
+		} else {
+			s[r.selector] = true
+		}
+	}
+	for k := range g {
+		gen = append(gen, k)
+	}
+	for k := range s {
+		spec = append(spec, k)
+	}
+	sort.Strings(gen)
+	sort.Strings(spec)
+	return gen, spec
+}
+
 func c15CheckSubset(c *Ctx, mask int, reversed bool) (evals int64, nontrivial bool) {
 	var lines []string
 	for i := range c15Rules {
@@ -108,6 +203,12 @@ func c15CheckSubset(c *Ctx, mask int, reversed bool) (evals int64, nontrivial bo
 		for flags := 0; flags < 8; flags++ {
 			css, js, generic := flags&1 != 0, flags&2 != 0, flags&4 != 0
 			wantG, wantS := c15Reference(parsed, h, css, generic)
+			if wg, ws := c15WrittenReference(lines, h, css, generic); (!eqStrings(wg, wantG) || !eqStrings(ws, wantS)) && !reported {
+				reported = true
+				c.Run.Violate(ev.Violation{Pred: "rule-match-equals-written-domains", Sig: map[string]any{"rules": lines, "host": h},
+					What:   fmt.Sprintf("CosmeticRule.Match/IsGeneric over %v for %q (css=%v generic=%v) give generic=%v specific=%v; the domain lists as written give generic=%v specific=%v", lines, h, css, generic, wantG, wantS, wg, ws),
+					Replay: map[string]any{"mask": mask, "reversed": reversed}})
+			}
 			if len(wantG)+len(wantS) > 0 {
 				nontrivial = true
 			}
@@ -143,11 +244,174 @@ func c15CheckSubset(c *Ctx, mask int, reversed bool) (evals int64, nontrivial bo
 	return evals, nontrivial
 }
 
+// c15Corpus compares the cosmetic engine over the element-hiding rules of the
+// bundled real-world lists with CosmeticRule.Match over all of them, for the
+// host names of the recorded requests and for domains the rules name.
+func c15Corpus(c *Ctx) (nRules, nHosts, evals int64) {
+	var parsed []*rules.CosmeticRule
+	var lists []filterlist.RuleList
+	hostSet := map[string]bool{}
+	var hosts []string
+	addHost := func(h string) {
+		if h != "" && !hostSet[h] {
+			hostSet[h] = true
+			hosts = append(hosts, h)
+		}
+	}
+	for fi, rel := range corpusFiles[:2] {
+		content := corpusContent(rel)
+		if content == "" {
+			continue
+		}
+		lists = append(lists, &filterlist.StringRuleList{ID: fi + 1, RulesText: content})
+		for li, line := range corpusLines(rel) {
+			r, err := rules.NewRule(line, fi+1)
+			cr, ok := r.(*rules.CosmeticRule)
+			if err != nil || !ok || cr == nil || cr.Type != rules.CosmeticElementHiding {
+				continue
+			}
+			parsed = append(parsed, cr)
+			if li%97 == 0 {
+				// a domain the rule names, and a sub-domain of it
+				t := strings.TrimSpace(line)
+				if i := strings.Index(t, "#"); i > 0 {
+					d := strings.Split(t[:i], ",")[0]
+					if !strings.HasPrefix(d, "~") && !strings.HasSuffix(d, ".*") {
+						addHost(d)
+						addHost("www." + d)
+					}
+				}
+			}
+		}
+	}
+	if len(parsed) == 0 {
+		return 0, 0, 0
+	}
+	reqs := corpusRequests()
+	for i := 0; i < len(reqs); i += 37 {
+		if pu, err := url.Parse(reqs[i].URL); err == nil {
+			addHost(pu.Hostname())
+		}
+		if pu, err := url.Parse(reqs[i].Frame); err == nil {
+			addHost(pu.Hostname())
+		}
+	}
+	limit := 80
+	if c.Thorough() {
+		limit = 1500
+	}
+	if len(hosts) > limit {
+		// a fixed stride keeps both kinds of host names
+		step := len(hosts)/limit + 1
+		var h2 []string
+		for i := 0; i < len(hosts); i += step {
+			h2 = append(h2, hosts[i])
+		}
+		hosts = h2
+	}
+	st, err := filterlist.NewRuleStorage(lists)
+	if err != nil {
+		panic(HarnessError(err.Error()))
+	}
+	ce := urlfilter.NewCosmeticEngine(st)
+	exceptions := map[string][]*rules.CosmeticRule{}
+	for _, r := range parsed {
+		if r.Whitelist {
+			exceptions[r.Content] = append(exceptions[r.Content], r)
+		}
+	}
+	var n atomic.Int64
+	c.parallel(len(hosts), func(hi int) {
+		if c.Expired() {
+			return
+		}
+		h := hosts[hi]
+		want := [4]map[string]bool{{}, {}, {}, {}} // generic, specific, generic ext, specific ext
+		for _, r := range parsed {
+			if r.Whitelist || !r.Match(h) {
+				continue
+			}
+			excepted := false
+			for _, e := range exceptions[r.Content] {
+				if e.Match(h) {
+					excepted = true
+					break
+				}
+			}
+			if excepted {
+				continue
+			}
+			k := 1
+			if r.IsGeneric() {
+				k = 0
+			}
+			if r.ExtendedCSS {
+				k += 2
+			}
+			want[k][r.Content] = true
+		}
+		for _, generic := range []bool{true, false} {
+			res := ce.Match(h, true, true, generic)
+			got := [4][]string{sortedSet(res.ElementHiding.Generic), sortedSet(res.ElementHiding.Specific), sortedSet(res.ElementHiding.GenericExtCSS), sortedSet(res.ElementHiding.SpecificExtCSS)}
+			n.Add(1)
+			for k := 0; k < 4; k++ {
+				var w []string
+				if generic || k%2 == 1 {
+					for s := range want[k] {
+						w = append(w, s)
+					}
+					sort.Strings(w)
+				}
+				if !eqStrings(got[k], w) {
+					extra, missing := diffStrings(got[k], w)
+					c.Run.Violate(ev.Violation{Pred: "corpus-selectors-equal-reference", Sig: map[string]any{"host": h, "bucket": k, "generic": generic},
+						What:   fmt.Sprintf("cosmetic engine over the bundled lists, host %q (generic=%v), bucket %d: %d selectors, reference %d; not expected %q, missing %q", h, generic, k, len(got[k]), len(w), clipList(extra), clipList(missing)),
+						Replay: map[string]any{"corpus": true}})
+					return
+				}
+			}
+		}
+	})
+	return int64(len(parsed)), int64(len(hosts)), n.Load()
+}
+
+func diffStrings(got, want []string) (extra, missing []string) {
+	g, w := map[string]bool{}, map[string]bool{}
+	for _, s := range got {
+		g[s] = true
+	}
+	for _, s := range want {
+		w[s] = true
+	}
+	for _, s := range got {
+		if !w[s] {
+			extra = append(extra, s)
+		}
+	}
+	for _, s := range want {
+		if !g[s] {
+			missing = append(missing, s)
+		}
+	}
+	return extra, missing
+}
+
+func clipList(l []string) []string {
+	if len(l) > 3 {
+		return append(append([]string{}, l[:3]...), fmt.Sprintf("…(%d)", len(l)))
+	}
+	return l
+}
+
 func renderCosmeticLocal(c urlfilter.CosmeticResult) string { return fmt.Sprintf("%+v", c) }
 
 func init() {
 	register("C15", "exploration", func(c *Ctx) {
 		if c.Replay != nil {
+			if cp, _ := c.Replay["corpus"].(bool); cp {
+				c15Corpus(c)
+				return
+			}
 			mask := int(c.Replay["mask"].(float64))
 			rev, _ := c.Replay["reversed"].(bool)
 			c15CheckSubset(c, mask, rev)
@@ -225,13 +489,18 @@ func init() {
 				c.Run.Sample(map[string]any{"rules": ls, "hosts": c15Hosts})
 			}
 		})
+		cr, ch, cev := c15Corpus(c)
+		evals += cev
+		c.Run.Set("corpus_rules", cr)
+		c.Run.Set("corpus_hosts", ch)
+		c.Run.Set("corpus_evaluations", cev)
 		c.Run.Set("subsets", int64(limit))
 		c.Run.Set("evaluations", evals)
 		c.Run.Set("distinct_nontrivial", nontrivial)
 		c.Run.Set("rule", fmt.Sprintf("%s of %d element-hiding rules and exceptions (generic, negated, multi-domain, wildcard TLD, duplicate selectors, self-excluding domains) in two line orders x %d hostnames x all 8 flag triples, through CosmeticEngine.Match and Engine.GetCosmeticResult, against CosmeticRule.Match over all rules; non-trivial = some host has a non-empty expected result", map[bool]string{false: "every subset of at most 5", true: "every subset"}[c.Thorough()], n, len(c15Hosts)))
 		c.Run.Set("exhaustive", exhaustive)
 		c.Run.Assumption("result buckets are compared as sets of selectors")
-		c.Run.Assumption("CosmeticRule.Match is the definition of 'applies to the hostname' (its wildcard-TLD label boundary is checked under C04's domain helper)")
+		c.Run.Assumption("CosmeticRule.Match is the definition of 'applies to the hostname'; it is itself compared with the domain list as written in the rule text (restricted wins, then permitted, wildcard TLD through the public suffix list)")
 	})
 }
 
